@@ -563,6 +563,31 @@ class Prog:
             self._callers = d
         return self._callers
 
+    def caller_fns(self, fn, _seen=None):
+        """keys of the functions that call `fn`, for who-may-call rules: a helper that the reference tree does not have (and that is
+        inlined into its callers, see inline.py) is replaced by the functions calling it - extracting lines into a private helper
+        does not add a caller in the sense of the rule.  A helper nobody calls is kept, so that it is reported."""
+        _seen = _seen if _seen is not None else set()
+        out = set()
+        known = getattr(self, 'known_functions', None)
+        for c in self.callers.get(fn, []):
+            k = self.key_of(c.body)
+            base = re.sub(r'(::\{closure#\d+\})+$', '', k)
+            if known is None or base in known or base in _seen:
+                out.add(k)
+                continue
+            _seen.add(base)
+            up = self.caller_fns(base, _seen)
+            for k2 in getattr(self, 'inlined_into', {}).get(base, ()):
+                b2 = re.sub(r'(::\{closure#\d+\})+$', '', k2)
+                if b2 in known:
+                    up.add(k2)
+                elif b2 not in _seen:
+                    _seen.add(b2)
+                    up |= self.caller_fns(b2, _seen) | {x for x in getattr(self, 'inlined_into', {}).get(b2, ()) if x in known}
+            out |= up if up else {k}
+        return out
+
     def key_of(self, body):
         return body.path if body.crate == 'rdp' else body.crate + '::' + body.path
 
